@@ -66,6 +66,10 @@ pub struct FileOpts {
     /// so their first labels sit at the same source position
     #[serde(default)]
     pub plain_head: bool,
+    /// let some blocks start exactly where the previous block of the file ends (no gap word between
+    /// two regions of one file); decided from values already drawn, so no random stream moves
+    #[serde(default)]
+    pub abut: bool,
 }
 
 #[derive(Clone, Debug)]
@@ -262,7 +266,22 @@ pub fn gen_file(r: &mut Rng, o: &FileOpts) -> GenFile {
                 sts.push(St { labels: vec![format!("HUGE_{}", o.id)], k: K::Blkw(hn) });
             }
         }
-        blocks.push((*orig, sts));
+        let mut orig = *orig;
+        let len: u32 = sts.iter().map(|s| s.k.size() as u32).sum();
+        if o.abut && len > 0 {
+            if let Some((po, psts)) = blocks.last() {
+                let plen: u32 = psts.iter().map(|s| s.k.size() as u32).sum();
+                let pend = *po as u32 + plen;
+                if plen > 0
+                    && pend < orig as u32
+                    && (orig as u32 + plen) % 3 == 0
+                    && !blocks.iter().any(|(bo, _)| (*bo as u32) >= pend && (*bo as u32) < orig as u32)
+                {
+                    orig = pend as u16;
+                }
+            }
+        }
+        blocks.push((orig, sts));
     }
     // shared labels defined by this file go on random statements
     let mode = r.below(3) as u8;
